@@ -232,7 +232,7 @@ def gen_c06(seed, tier):
     if not op["faults"]["calls"]:
         calls = [n["id"] for n in desc["world"]["nodes"] if n["kind"] == "call"]
         if calls:
-            op["faults"]["calls"][str(rng.choice(calls))] = dict(exc=rng.choice(["E1", "B1", "F1", "F2"]))
+            op["faults"]["calls"][str(rng.choice(calls))] = dict(exc=rng.choice(["E1", "B1", "F1", "F2", "Z1"]))
     return desc
 
 
@@ -307,7 +307,7 @@ def gen_c10(seed, tier):
     desc, rng = base_desc(seed, tier, p_dep=0.3, durs=(0.0, 1.0, 1.0, 2.0, 5.0))
     world = desc["world"]
     op = desc["ops"][0]
-    op["faults"] = dict(calls=worldgen.gen_call_faults(rng, world, p_fail=0.3, excs=("E1", "E2", "B1", "F1"), flaky=flaky))
+    op["faults"] = dict(calls=worldgen.gen_call_faults(rng, world, p_fail=0.3, excs=("E1", "E2", "B1", "F1", "Z1"), flaky=flaky))
     op["cfg"]["retry"] = rng.choice([None, 1, 2, 3, 4, ["custom", 2], ["custom", 3]])
     op["cfg"]["max_errors"] = rng.choice([0, 1, 2, 3, None, None])
     return desc
@@ -569,7 +569,7 @@ def gen_c16(seed, tier):
         calls = {}
         for c in consumers:
             if rng.random() < 0.6:
-                calls[str(c)] = dict(exc=rng.choice(["E1", "E2", "F1"]), until=rng.choice([1, 1, 2]))
+                calls[str(c)] = dict(exc=rng.choice(["E1", "E2", "F1", "Z1"]), until=rng.choice([1, 1, 2]))
         op["faults"] = dict(calls=calls)
         op["cfg"].update(retry=rng.choice([3, 3, 4]), no_keep_exc=True, max_workers=rng.choice([1, 2, 3]))
     if seed % 3 == 0:
